@@ -10,7 +10,7 @@
    Events:
      reset  {pos [x,y], scale, col}                  new mode/session
      setpos {x, y, col}                              PSET (x,y),col
-     draw   {cmds, ok, kind, p0, p1,                 POINT(0), POINT(1) after the DRAW
+     draw   {cmds, ok, kind, code, p0, p1,           outcome; POINT(0), POINT(1) after the DRAW (also after a refused one)
              lines [[x0,y0,x1,y1,c],..],             the LINE statements drawn as reference
              marks [[x,y],..] (optional),            pixels holding the marker attribute after PSET STEP(0,0),marker
              diff  [[x,y],..],                       pixels where DRAW picture and LINE picture differ
@@ -26,7 +26,9 @@ InClip(p, c) == c[1] <= p[1] /\ p[1] <= c[3] /\ c[2] <= p[2] /\ p[2] <= c[4]
 
 Judge(e, r) ==
     IF e.kind = "internal" THEN "internal_error"
-    ELSE IF ~e.ok THEN "draw_statement_failed"
+    ELSE IF r.err /\ e.ok THEN "scale_outside_1_255_accepted"
+    ELSE IF ~r.err /\ ~e.ok THEN "draw_statement_failed"
+    ELSE IF r.err /\ e.code # 5 THEN "scale_outside_1_255_refused_with_another_error"
     ELSE IF <<e.p0, e.p1>> # r.st.pos THEN "pen_position_POINT_0_1"
     ELSE IF Has(e, "noref") THEN "ok"        \* attribute > 255: LINE cannot render the reference; pen position only
     ELSE IF e.lines # r.segs THEN "reference_lines_are_not_the_model_segments"
@@ -46,7 +48,7 @@ Step1(e) ==
                     /\ viol' = viol
                     /\ PrintT(<<"SEGS", ToJson([i |-> l, segs |-> r.segs, pos |-> r.st.pos])>>)
                ELSE LET v == Judge(e, r)
-                    IN  /\ st' = IF e.ok /\ e.kind # "internal" THEN [r.st EXCEPT !.pos = <<e.p0, e.p1>>] ELSE st
+                    IN  /\ st' = IF (e.ok \/ r.err) /\ e.kind # "internal" THEN [r.st EXCEPT !.pos = <<e.p0, e.p1>>] ELSE st
                         /\ viol' = IF v = "ok" THEN viol ELSE Append(viol, <<l, v>>)
 
 TInit == st = [pos |-> <<0, 0>>, scale |-> 4, col |-> 0] /\ l = 1 /\ viol = <<>>
